@@ -77,7 +77,7 @@ func c07GenExact() *rapid.Generator[c07ExactCase] {
 		c.LevelSeed = rapid.Int64Range(1, 1<<40).Draw(t, "levelSeed")
 		mp := rapid.SampledFrom(c07MetricPrec).Draw(t, "metricPrec")
 		c.Cfg = c07Cfg{Metric: mp[0], Prec: mp[1],
-			M:   rapid.SampledFrom([]int{2, 4, 8, 16}).Draw(t, "M"),
+			M:   rapid.SampledFrom([]int{2, 4, 8, 16, 16, 32}).Draw(t, "M"), // 2*32 = 64 vectors: one full word of a visited bit set
 			EfC: rapid.SampledFrom([]int{8, 40, 200}).Draw(t, "efC"),
 			Dim: rapid.SampledFrom([]int{2, 2, 3, 4, 8, 16}).Draw(t, "dim")}
 		limit := 2 * c.Cfg.M
@@ -116,6 +116,9 @@ func c07GenExact() *rapid.Generator[c07ExactCase] {
 		query := func() c07Op {
 			op := c07Op{K: "query"}
 			op.Q = c07GenVec(t, c.Cfg.Dim, vecs, "q")
+			if len(vecs) > 0 && rapid.IntRange(0, 3).Draw(t, "qNewest") == 0 {
+				op.Q = append([]float32{}, vecs[len(vecs)-1]...) // the newest vector, by its own value
+			}
 			maxK := len(live)
 			if maxK < 1 || rapid.IntRange(0, 5).Draw(t, "kBeyondLive") == 0 {
 				maxK = len(live) + 2
@@ -129,8 +132,22 @@ func c07GenExact() *rapid.Generator[c07ExactCase] {
 			room := limit - total()
 			w := rapid.IntRange(0, 99).Draw(t, "opKind")
 			switch {
-			case w < 30 && room >= 1:
+			case w < 26 && room >= 1:
 				c.Ops = append(c.Ops, c07Op{K: "add", Items: []c07Item{item()}})
+			case w < 30 && room >= 1:
+				// fill the index to the very limit of the exact regime (2*M, or efConstruction)
+				op := c07Op{K: "batch"}
+				if rapid.IntRange(0, 2).Draw(t, "fillOneByOne") == 0 {
+					for i := 0; i < room; i++ {
+						c.Ops = append(c.Ops, c07Op{K: "add", Items: []c07Item{item()}})
+					}
+				} else {
+					for i := 0; i < room; i++ {
+						op.Items = append(op.Items, item())
+					}
+					c.Ops = append(c.Ops, op)
+				}
+				c.Ops = append(c.Ops, query(), query())
 			case w < 40 && room >= 1:
 				n := rapid.IntRange(1, room).Draw(t, "batchN")
 				op := c07Op{K: "batch"}
